@@ -1,5 +1,6 @@
 import Ufo2ftModel.Drv.Util
 import Ufo2ftModel.Spec.C05
+import Ufo2ftModel.Spec.C05Apply
 namespace Ufo2ft.Drv.C05
 open Lean Ufo2ft Ufo2ft.Drv Ufo2ft.C05
 
@@ -11,9 +12,18 @@ def regJ (r : Reg) : Json := Json.arr #[Json.str r.script, strsJ r.languages, st
 def asSL (j : Json) : R (List (String × List String)) := asList (asPair asStr (asList asStr)) j
 def asSS (j : Json) : R (List (String × String)) := asList (asPair asStr asStr) j
 
-/-- op "kern" -/
-def kern (req : Json) : R Reply := do
-  let i ← field req "in"
+structure KernIn where
+  glyphs : List String
+  groups : List (String × List String)
+  kerning : List (String × String × Q)
+  q : Q
+  ignoreMarks : Bool
+  marks : Option (List String)
+  c : Ctx
+  rc : RegCtx
+  todo : List String
+
+def parseIn (i : Json) : R KernIn := do
   let glyphs ← asList asStr (← field i "glyphs")
   let groups ← asSL (← field i "groups")
   let kerningJ ← asArr (← field i "kerning")
@@ -31,7 +41,20 @@ def kern (req : Json) : R Reply := do
   let rc : RegCtx := { dist := ← asList asStr (← field i "distScripts"), otTags := ← asSL (← field i "otTags"),
                        langs := ← asSL (← field i "langs") }
   let todo ← asList asStr (← field i "todo")
-  let p := program c rc glyphs groups kerning q marks ignoreMarks (todo.contains "kern") (todo.contains "dist")
+  return { glyphs, groups, kerning, q, ignoreMarks, marks, c, rc, todo }
+
+def KernIn.program (k : KernIn) : Program :=
+  C05.program k.c k.rc k.glyphs k.groups k.kerning k.q k.marks k.ignoreMarks (k.todo.contains "kern") (k.todo.contains "dist")
+
+/-- op "kern" -/
+def kern (req : Json) : R Reply := do
+  let i ← field req "in"
+  let k ← parseIn i
+  let glyphs := k.glyphs
+  let groups := k.groups
+  let kerning := k.kerning
+  let q := k.q
+  let p := k.program
   let model := Json.mkObj [("lookups", listJ lookupJ p.lookups), ("kern", listJ regJ p.kern), ("dist", listJ regJ p.dist)]
   -- holds on the observed GPOS
   let ind ← field i "indep"
@@ -80,10 +103,26 @@ def agree2 (req : Json) : R Reply := do
   return { model, holds := err.isNone && bad.isEmpty,
            info := Json.arr (bad.map (fun (t, g1, g2) => Json.arr #[Json.str t, Json.str g1, Json.str g2])).toArray }
 
+/-- op "apply": the adjustment table `applyKern` gives on the MODEL's program, for every script tag asked for and every
+    ordered pair of the listed glyphs (zero entries left out) — compared by the harness with what the independent GPOS
+    interpreter reads from the COMPILED font -/
+def apply (req : Json) : R Reply := do
+  let i ← field req "in"
+  let k ← parseIn i
+  let p := k.program
+  let tags ← asList asStr (← field i "applyTags")
+  let names ← asList asStr (← field i "applyGlyphs")
+  let table := tags.map (fun t =>
+    Json.arr #[Json.str t, Json.arr (names.flatMap (fun g1 => names.filterMap (fun g2 =>
+      let a := applyKern p t g1 g2
+      if a.1 == 0 && a.2 == 0 then none else some (Json.arr #[Json.str g1, Json.str g2, ratJ a.1, ratJ a.2])))).toArray])
+  return { model := Json.arr table.toArray, holds := true }
+
 def handle (op : String) (req : Json) : R Reply :=
   match op with
   | "kern" => kern req
   | "agree2" => agree2 req
+  | "apply" => apply req
   | _ => throw s!"C05: unknown op {op}"
 
 end Ufo2ft.Drv.C05
